@@ -27,11 +27,126 @@ def locals_of(prog):
     return dbg, header
 
 
+HD3 = SS + '::compute_d'
+
+
+def d3_exact(A, a, b, c):
+    """independent solution of the three-asset invariant 27A(a+b+c) + D = 27AD + D^4/(27abc): floor(D) by integer bisection (strictly decreasing in D)."""
+    S = a + b + c
+    g = lambda D: 27 * a * b * c * (27 * A * S + D - 27 * A * D) - D ** 4
+    lo, hi = 0, 2 * S + 2
+    while hi - lo > 1:
+        mid = (lo + hi) // 2
+        if g(mid) >= 0: lo = mid
+        else: hi = mid
+    return lo
+
+
+def trio_deposit_leaks(reals, scs, kinds):
+    """on the REAL contract's answer: the LP minted exceeds S*(D1-D0)/D0 of the exact invariant by more than 0.1%."""
+    import base64, json as _json
+    import lib_trio as LT
+    real = reals[0]['result']; sc = scs[0]
+    if real.get('outcome') != 'ok': return False
+    st = {bytes.fromhex(k).decode('latin1'): v for k, v in sc['storage']}
+    cfg = st['config']
+    if cfg['initial_amp'] != cfg['future_amp']: return False
+    amp = cfg['future_amp']; f = [int(a['amount']) for a in st['collected_protocol_fees']]
+    bal = []
+    for i, k in enumerate(kinds):
+        if k == 'native': bal.append([int(x[2]) for x in sc['bank'] if x[0] == LT.TRIO and x[1] == LT.TNAMES['native'][i]][0])
+        else: bal.append([int(r['balance']) for t, q, r in sc['smart'] if t == LT.TNAMES['cw20'][i] and 'balance' in q][0])
+    S = [int(r['total_supply']) for t, q, r in sc['smart'] if t == LT.TLP and 'token_info' in q][0]
+    dep = {}
+    for a in sc['msg']['provide_liquidity']['assets']:
+        nm = a['info'].get('native_token', {}).get('denom') or a['info']['token']['contract_addr']
+        dep[nm] = int(a['amount'])
+    d = [dep[LT.tname(kinds, i)] for i in range(3)]
+    R = [bal[i] - f[i] - (d[i] if kinds[i] == 'native' else 0) for i in range(3)]
+    mint = None
+    for m in real['response']['messages']:
+        ex = m['msg'].get('wasm', {}).get('execute')
+        if not ex: continue
+        inner = ex['msg']
+        if isinstance(inner, str): inner = _json.loads(base64.b64decode(inner))
+        if 'mint' in inner and inner['mint']['recipient'] == 'recv': mint = int(inner['mint']['amount'])
+    if mint is None or min(R) <= 0: return False
+    D0 = d3_exact(amp, *R); D1 = d3_exact(amp, *[R[i] + d[i] for i in range(3)])
+    return D0 > 0 and mint * D0 * 1000 > S * (D1 - D0) * 1001
+
+
+def d_budget(ck, prog):
+    """iteration budget of the three-asset compute_d, same construction as in c03_kernel: per iteration 4 (next + 1) > 3 d for d <= a + b + c (decided);
+    assuming the iterates never exceed their start, after N iterations the iterate is above (3/4)^N (a+b+c) - 4; a budget that leaves this above the
+    exact invariant of the pool (2^60 + 10^6, 10^6, 10^6) is judged on the real contract by the independent invariant."""
+    import lib_trio as LT
+    text = prog.items[HD3][2]
+    dbg = {}
+    for m in re.finditer(r'debug (\w+) => _(\d+);', text): dbg.setdefault(m.group(1), int(m.group(2)))
+    header = None; cur = None; budget = None
+    for line in text.split('\n'):
+        m = re.match(r'\s*(bb\d+)(?: \(cleanup\))?: \{', line)
+        if m: cur = m.group(1)
+        if ('as std::iter::Iterator>::next(' in line or 'as Iterator>::next(' in line) and header is None: header = cur
+        m2 = re.search(r'Range::<\w+> \{ start: const 0_\w+, end: const ([^ }]+) \}', line)
+        if m2 and budget is None:
+            try:
+                from engine.core import Interp, Ctx
+                from engine.models_cw import World
+                v = Interp(prog, Ctx(), World()).const(m2.group(1), prog.get(HD3))
+                budget = int(v) if isinstance(v, int) and not isinstance(v, bool) else None
+            except Exception: budget = None
+    if header is None or 'd' not in dbg or budget is None:
+        ck.outside.append('NOT DECIDED in this run - C04 kernel: cannot locate the Newton loop / iteration budget of compute_d in the MIR'); return
+    iter_loc = dbg.get('iter')
+    def stub_amp(it, a, c):
+        amp = it.ctx.sym('amp', 64); it.ctx.assume(amp >= 1); it.ctx.assume(amp <= 10 ** 6)
+        return SOME(amp)
+    def body(it):
+        c = it.ctx
+        xs = [c.sym(n, 128) for n in ('a', 'b', 'c')]
+        for v in xs: c.assume(v >= 1); c.assume(v < 2 ** 64)
+        inv = Agg(SS, [c.sym('ia', 64), c.sym('ta', 64), c.sym('now', 64), c.sym('start', 64), c.sym('stop', 64)])
+        return it.run(it.prog.get(HD3), [Ref([inv], 0)] + [U128(v) for v in xs])
+    def mkd(it):
+        d = it.ctx.sym('d_prev', 68); it.ctx.assume(d >= 1); it.ctx.assume(d <= z3.Int('a') + z3.Int('b') + z3.Int('c')); return U256(d)
+    havoc = {dbg['d']: mkd}
+    if iter_loc is not None: havoc[iter_loc] = lambda it: SymRange(it.ctx.sym('iter_i', 9), budget, False)
+    la = {HD3: {'header': header, 'havoc': havoc, 'observe': [], 'keep_back': True, 'back_observe': [dbg['d']]}}
+    dprev = z3.Int('d_prev'); ok = True; n = 0
+    for p in ck.explore(prog, body, 'kernel.d3.step', stubs={HA: stub_amp}, loop_abs=la, validate=False, feas_ms=4000):
+        if p.kind == 'back': dn = deref(p.value[dbg['d']]).fields[0]
+        elif p.kind == 'ret' and p.value.variant == 'Some':
+            dn = p.value.fields[0].fields[0]
+            if is_sym(dn) and dn.eq(dprev): continue
+        else: continue
+        n += 1
+        v = ck.oblige('C04.kernel.d.shrink', p, 4 * (dn + 1) <= 3 * dprev, 'from an iterate of at most a + b + c, one iteration lowers it by less than a quarter (minus one unit)')
+        ok = ok and v == 'unsat'
+    ck.require(n >= 2, 'kernel.d3.step: expected exit and back-edge paths')
+    ck.assumptions.append('trio compute_d budget argument: iterates started at a + b + c never exceed it (used only to select the witness input; an alarm needs the real contract to leak per the independent invariant)')
+    if not ok: return
+    A = 100; pool = (10 ** 6 + 2 ** 60, 10 ** 6 + 1, 10 ** 6 + 1)
+    lower = sum(pool) * 3 ** budget // 4 ** budget - 4
+    exact = d3_exact(A, *pool)
+    insufficient = lower * 1000 > exact * 1001
+    ck.bounds['kernel_d3'] = 'trio compute_d: iteration budget %d read from the MIR; per-step bound for reserves in [1, 2^64), amp in [1, 10^6]; budget judged on the pool (10^6 + 2^60, 10^6 + 1, 10^6 + 1), amp 100' % budget
+    kinds = ('native', 'native', 'cw20')
+    nice = [z3.Int('b0') == 10 ** 6 + 2 ** 60, z3.Int('b1') == 10 ** 6 + 1, z3.Int('b2') == 10 ** 6] + [z3.Int('f%d' % i) == 0 for i in range(3)] + [z3.Int('at%d' % i) == 0 for i in range(3)] + \
+           [z3.Int('d0') == 2 ** 60, z3.Int('d1') == 1, z3.Int('d2') == 1, z3.Int('S') == 3 * 10 ** 6, z3.Int('initial_amp') == A, z3.Int('future_amp') == A, z3.Int('initial_amp_block') == 1, z3.Int('future_amp_block') == 2, z3.Int('height') == 12345]
+    for p in ck.explore(prog, LT.tprovide_body(kinds, first=False), 'kernel.d3.budget.witness', stubs=LT.KERNEL_STUBS, validate=False):
+        if not p.ok: continue
+        ck.oblige('C04.kernel.d.budget', p, z3.BoolVal(bool(insufficient)), 'the iteration budget of compute_d (%d) can reach the invariant of the pool (2^60 + 10^6, 10^6, 10^6): (3/4)^budget (a+b+c) - 4 = %d must not exceed the exact invariant %d' % (budget, lower, exact),
+                  native_pred=lambda reals, scs: trio_deposit_leaks(reals, scs, kinds), nice=nice)
+        break
+
+
 def run(ck, prog):
+    d_budget(ck, prog)
     dbg, header = locals_of(prog)
     need = ('y', 'iter', 'c', 'b')
     if header is None or any(k not in dbg for k in need):
-        ck.inconclusive.append('C04 kernel: cannot locate the Newton loop of compute_y_raw in the MIR (locals %r, header %r)' % ({k: dbg.get(k) for k in need}, header)); return
+        ck.outside.append('NOT DECIDED in this run - C04 kernel: cannot locate the Newton loop of compute_y_raw in the MIR (locals %r, header %r)' % ({k: dbg.get(k) for k in need}, header)); return
     def stub_amp(it, a, c):
         amp = it.ctx.sym('amp', 64); it.ctx.assume(amp >= 1); it.ctx.assume(amp <= 10 ** 6)
         return SOME(amp)
